@@ -46,6 +46,11 @@ fn main() -> anyhow::Result<()> {
                 .split(',')
                 .map(|x| x.parse().unwrap())
                 .collect();
+            // the protocol only looks at stake RATIOS: the same behaviours must be produced when every
+            // stake is multiplied by the same factor (up to the top of the u64 range)
+            let scale: u64 = arg_after(&args, "--stake-scale").and_then(|s| s.parse().ok()).unwrap_or(1);
+            let stakes: Vec<u64> = stakes.iter().map(|s| s.checked_mul(scale).expect("scaled stake fits u64")).collect();
+            stakes.iter().try_fold(0u64, |a, s| a.checked_add(*s)).expect("total stake fits u64");
             let own: usize = arg_after(&args, "--own").and_then(|s| s.parse().ok()).unwrap_or(0);
             let max_slot: u64 = arg_after(&args, "--max-slot").and_then(|s| s.parse().ok()).unwrap_or(7);
             let sample = arg_after(&args, "--sample").and_then(|s| s.parse().ok());
@@ -114,7 +119,8 @@ fn main() -> anyhow::Result<()> {
                 arg_after(&args, name).and_then(|s| s.parse().ok()).unwrap_or(d)
             };
             let cfg = sim::SimConfig {
-                stakes: arg_after(&args, "--stakes").expect("--stakes").split(',').map(|x| x.parse().unwrap()).collect(),
+                stakes: arg_after(&args, "--stakes").expect("--stakes").split(',')
+                    .map(|x| x.parse::<u64>().unwrap().checked_mul(num("--stake-scale", 1)).expect("scaled stake fits u64")).collect(),
                 byz: list("--byz"),
                 byz_mode: arg_after(&args, "--byz-mode").unwrap_or_else(|| "silent".into()),
                 crashed: list("--crashed"),
